@@ -50,6 +50,7 @@ CELLS = [
     ("int_huge", lambda: 10 ** 400),
     ("int_neghuge", lambda: -(10 ** 400)),
     ("int_big_ts", lambda: 10 ** 13),
+    ("int_1e17", lambda: 10 ** 17),          # a timestamp the platform's time_t conversion refuses (OSError EOVERFLOW)
     ("intenum", lambda: _IntE.A),
     ("float_pos", lambda: 1.5),
     ("float_neg", lambda: -2.5),
